@@ -42,7 +42,7 @@ RULE = ("random bounded models (gen_model, autonomous, 2-4 states, 1-4 parameter
         "inflow, constant explicit ODE terms, time-dependent coefficients, symmetric and all-zero Jacobians; events only / explicit ODE "
         "terms only); one state.  BOUNDARY VALUES (10 % each): a parameter / an initial state that is exactly zero.  GRID VARIANTS "
         "(weights 8:5:3:2:2:1:1:2): plain; replicate observation times (1-3 times repeated, also the first and the last, also three "
-        "times); the grid moved to t0 in {+-738000, +-1e4, 1e6, -123456.5, 1e7}; both; a horizon of t0 + 1e-3 / 1e-6 / 1e-9 of the "
+        "times); the grid moved to t0 in {+-738000, +-1e4, +-1e6, -123456.5}; both; a horizon of t0 + 1e-3 / 1e-6 / 1e-9 of the "
         "normal one; two times one ulp apart; an observation at t0; a one-point grid - forms the unchanged pygom refuses with an error "
         "(IntegrationError for the zero-length first step, InputError from the constructor's trial integration, AssertionError for a "
         "one-point grid with several observed states) are tagged `unsupported:*`, every accepted form is judged; the variant is part of "
@@ -89,7 +89,7 @@ SPREAD_RANGE = {"Normal": (0.3, 2.0), "Gamma": (1.0, 5.0), "NegBinom": (0.5, 5.0
 # ulp apart, an observation at t0, a one-point grid.  What the unchanged pygom refuses (IntegrationError on a zero-length first
 # step, the constructor's trial integration on a one-ulp step, a one-point grid with several observed states) is tagged, not judged.
 GRID_VARIANTS = [("plain", 8), ("repeated", 5), ("far", 3), ("far-repeated", 2), ("tiny-horizon", 2), ("ulp", 1), ("at-t0", 1), ("one-point", 2)]
-T0_FAR = [738000.0, -738000.0, 10000.0, -10000.0, 1.0e6, -123456.5, 1.0e7]
+T0_FAR = [738000.0, -738000.0, 10000.0, -10000.0, 1.0e6, -123456.5, -1.0e6]
 MODEL_VARIANTS = [("standard", 12), ("time-dependent", 3), ("affine", 4), ("one-state", 1)]
 UNSUPPORTED = {"at-t0": ("IntegrationError", "InputError"), "ulp": ("IntegrationError", "InputError"), "one-point": ("AssertionError",),
                "repeated": ("InputError", "IntegrationError"), "far-repeated": ("InputError", "IntegrationError")}
